@@ -1,7 +1,7 @@
 (* C14_Proofs6.v — consequences of the life-cycle invariants: no nil statement leaves the cache,
    a failed preparation is reported to every waiter and is not cached, the statement a
    goroutine executes was prepared for the text it asked for. *)
-From Verif Require Import Base C14_Model C14_Check C14_Proofs2 C14_Proofs3 C14_Proofs4 C14_Proofs5.
+From Verif Require Import Base C14_Model C14_Count C14_Proofs2 C14_Proofs3 C14_Proofs4 C14_Proofs5.
 
 Lemma invD_init g progs : invD (init_g g progs).
 Proof.
